@@ -154,6 +154,7 @@ def handleWTx (acc : Acc) (h : WHist) (kv : KV) (line : String) : Acc × WHist :
   (acc, { h with pending := some (kv, line) })
 
 def handleWObs (acc : Acc) (h : WHist) (kv : KV) (_line : String) : Acc × WHist × Option Step :=
+  let _okv := kv
   if !h.alive then (acc, h, none) else
   let obs := parseObs kv
   match h.pending with
@@ -206,9 +207,29 @@ def handleWObs (acc : Acc) (h : WHist) (kv : KV) (_line : String) : Acc × WHist
         match World.applyTx h.last.w env sender funds tx with
         | .ok _ => "{model-accepts}"
         | .error _ => "{model-rejects}"
-      let acc := (allChecks step ++ extraChecks step).foldl (fun a pc =>
+      let acc := (allChecks step ++ extraChecks step ++ extraChecks2 step).foldl (fun a pc =>
         pc.2.foldl (fun a tag =>
           a.report "SPECFAIL" pc.1 (if pc.1 == "C07" then s!"{kind}:{tag}{errClass}{modelVerdict}" else s!"{kind}:{tag}") tline) a) acc
+      -- C14: the insurance fund's membership queries agree with its stored registry (after every transaction)
+      let acc :=
+        match _okv.get? "if.qall" with
+        | none => acc
+        | some qall =>
+          let reg := obs.w.ifund.vamms
+          let listed := if qall == "err" then [] else natList qall
+          let qis := natList (_okv.str "if.qis")
+          let known : List Nat := (obs.w.vamms : List (Nat × Vamm.V)).map (fun (p : Nat × Vamm.V) => p.1)
+          let stat : List (Nat × Bool) := (((_okv.str "if.qstat").splitOn ",").filterMap (fun (t : String) =>
+            match t.splitOn ":" with
+            | [a, b] => (match String.toNat? a, String.toNat? b with | some x, some y => some (x, y == 1) | _, _ => none)
+            | _ => none))
+          let acc := if listed == reg.take 3 then acc
+            else acc.report "SPECFAIL" "C14" s!"{kind}:get-all-vamm-disagrees-with-registry" tline
+          let acc := if known.all (fun v => qis.contains v == reg.contains v) then acc
+            else acc.report "SPECFAIL" "C14" s!"{kind}:is-vamm-disagrees-with-registry" tline
+          if qall == "err" || stat.map (fun (p : Nat × Bool) => p.1) == reg.take 3
+               && stat.all (fun (p : Nat × Bool) => match obs.w.vamm? p.1 with | some x => x.st.isOpen == p.2 | none => true) then acc
+          else acc.report "SPECFAIL" "C14" s!"{kind}:vamm-status-query-disagrees-with-state" tline
       -- C01 quote recovery across the history
       let acc := obs.w.vamms.foldl (fun a p =>
         if (h.seen.filter (fun e => e.1 == p.1)).all (fun e => Spec.C01.recoveryOk p.2.cfg.decimals e.2 p.2.st) then a
